@@ -136,7 +136,31 @@ def rule_argmin(ctx):
             res.violate("%s : bypasses-scan" % fn_key(f), "entry point does not obtain its assignment from the common scan function %s" % skey, fn_loc(f))
     if len(entries) < 5:
         res.missing_anchor("k-means entry points (expected 5, found %d)" % len(entries))
-    return res.finish(8)
+    # (c) every call that hands a metric to the scan (directly or through the update_* helpers) hands the
+    #     model's / parameter set's own metric on, never a freshly named one
+    helpers = set([target])
+    for f in fns:
+        if target in callees(f) and f["d"]["name"].startswith("update_"):
+            helpers.add((f["d"]["krate"], f["d"].get("raw")))
+    n_calls = 0
+    for f in fns:
+        c = f["crate"]
+        r = Render(c)
+        for n in walk(f["body"]):
+            if n.get("k") != "Call":
+                continue
+            fd = c.dfn(strip(n["f"]).get("def")) if strip(n["f"]).get("k") == "Path" else None
+            if fd is None or (fd["krate"], fd.get("raw")) not in helpers or not n["args"]:
+                continue
+            n_calls += 1
+            arg = r.e(n["args"][0])
+            inst = "%s : %s(%s, ..)" % (fn_key(f), fd["name"], arg[:30])
+            res.instance(inst)
+            if "dist_fn" in arg:
+                res.ok()
+            else:
+                res.violate("%s : foreign-metric:%s" % (fn_key(f), fd["name"]), "`%s` is called with the metric `%s` instead of the model's own dist_fn: assignments then minimise a different distance than training did" % (fd["name"], arg[:60]), fn_loc(f, n["ln"]))
+    return res.finish(12)
 
 
 def fit_fn(res, F):
@@ -319,10 +343,18 @@ def rule_fresh(ctx):
             prior = [(e, cent, muts) for e, cent, muts in fills if e.order < u.order and used & set(m["local"] for m in muts)]
             if not prior:
                 continue
-            e, cent, muts = max(prior, key=lambda x: x[0].order)
+            # walk the fills backwards: a fill that is only executed under a condition the use does not share
+            # leaves the earlier fill in effect on the other path
+            ugs = set((g[0], g[1]) for g in u.guards)
+            reassigned, e, cent, muts = [], None, None, None
+            for cand in sorted(prior, key=lambda x: -x[0].order):
+                e, cent, muts = cand
+                reassigned = [a for a in tr.events if a.kind == "assign" and a.lhs == "local:%s" % cent["name"] and e.order < a.order < u.order]
+                conditional = not set((g[0], g[1]) for g in e.guards) <= ugs
+                if reassigned or not conditional:
+                    break
             inst = "%s : use of %s at `%s`" % (key, ",".join(sorted(m["name"] for m in muts if m["local"] in used)), u.kind)
             res.instance(inst)
-            reassigned = [a for a in tr.events if a.kind == "assign" and a.lhs == "local:%s" % cent["name"] and e.order < a.order < u.order]
             if reassigned:
                 n_stale += 1
                 a = reassigned[0]
